@@ -45,6 +45,9 @@ func pickGrammar(r *rand.Rand, idx int, usable bool, cfg gen.RandCfg) *spec.Gram
 	if usable && idx%10 == 4 {
 		return gen.Rings(r)
 	}
+	if usable && idx%50 == 7 {
+		return gen.Big(r)
+	}
 	if usable {
 		return gen.RandUsable(r, cfg)
 	}
